@@ -23,6 +23,15 @@ CHECKS = {
     "C15": ("fault_enumeration", "runtime monitoring under fault injection: structural source mutators + exhaustive component-cycle shapes, each run as an rlimited fontc process; exit-status oracle + C05 walker",
             "All component-cycle shapes (length 1-4 x scaled x non-export member x used from outside) x 3 option sets are enumerated exhaustively; FEA include loops and sampled structural mutants (truncation, dropped/duplicated/swapped lines and blocks, extreme numbers, byte flips, empty/missing files, token soup) of 23 corpus seeds follow. Verdict per case: never a signal, never the CPU limit, exit!=0 => no font, exit 0 => font passes the C05 walker.",
             "Termination is restated as a 60 CPU-second bound (>400x normal cost); RLIMIT_AS 8 GiB; exit 101 (main-thread panic with message, no font) is counted but not a violation.", "DESIGN.md §5 C15"),
+    "C07": ("exploration", "runtime monitoring: in-process API monitor over fontdrasil::variations with reconstruction / tent / scalar / order-independence oracles, in rlimited children under forced hash seeds",
+            "Hostile location sets and value vectors are pushed through VariationModel::new, deltas_with_rounding and interpolate_from_deltas; every master must be reconstructed (1e-9 unrounded, 0.5 rounded, default exact), every tent valid, every scalar in [0,1] and equal to an independent implementation of the spec formula, and the result independent of supply order.",
+            "Uses the public API the property anchors on; scalar formula re-implemented independently; axes 1-4, <= 8 masters per layout.", "DESIGN.md §5 C07"),
+    "C13": ("exploration", "runtime monitoring: fea_rs::parse::parse_root driven with corpus / mutated / grammar / soup / include-graph inputs inside journaling rlimited child processes; losslessness, diagnostic-range, totality oracles",
+            "Each input is parsed through the public entry point with an in-memory resolver under catch_unwind, RLIMIT_AS 2 GiB and a CPU limit; the child journals the input index first so a death is attributed and the run continues. Oracles: no panic / no death, token texts concatenate to the input, diagnostic ranges inside their source on char boundaries, display() total, cycles and depth > 50 reported, validate() total on error-free trees.",
+            "Token-concatenation is asserted for include-free inputs only; termination is a CPU-time bound; witnesses are delta-minimised with a bounded number of child runs.", "DESIGN.md §5 C13"),
+    "C16": ("exploration", "runtime monitoring: API-level monitor of overlay_feature_variations against the source rule semantics at sampled points (edges +-2 quanta, centres, extremes) + end-to-end FeatureVariations evaluation",
+            "Random rule lists are overlaid by the real code and the returned boxes evaluated (first containing box wins) at sampled normalized locations against 'all applicable rules in order, earlier wins'; asserted on points more than one F2Dot14 quantum from every box edge where applicable rules do not conflict. Conflicting points are evaluated and reported under known finding F8.",
+            "Exact-edge points are counted, not asserted (the overlay drops zero-width intersections like fontTools).", "DESIGN.md §5 C16"),
 }
 
 NOT_YET = {}
